@@ -162,6 +162,33 @@ def expectedCells (e : Expect) : List (Nat × Nat) :=
   (List.range e.n).flatMap fun r => (List.range e.n).filterMap fun c =>
     if e.dark r c then some (c + e.margin, r + e.margin) else none
 
+/-- one shape layer: a path filled (and, if stroked, stroked) with the layer's colour whose sub-paths are
+exactly the expected cells -/
+def layerCheck (cells : List (Nat × Nat)) (pc : Tag × String) : Option String :=
+  let p := pc.1
+  let col := pc.2
+  if p.name != "path" then some "layer-is-not-a-path"
+  else if attr p "fill" != some col then some "layer-fill-colour"
+  else if (attr p "stroke").isSome ∧ attr p "stroke" != some col then some "layer-stroke-colour"
+  else match attr p "d" with
+    | none => some "path-without-d"
+    | some d =>
+      match cellsOf d with
+      | none => some "unreadable-path-data"
+      | some cs => if cs == cells then none else some "sub-paths-are-not-exactly-the-dark-modules"
+
+/-- what follows the layers: nothing, or the frame rectangle and one image element carrying the reference -/
+def tailCheck (image : Option String) (tail : List Tag) : Option String :=
+  match image, tail with
+  | none, [] => none
+  | none, _ => some "unexpected-elements-after-the-layers"
+  | some img, [frame, im] =>
+    if frame.name != "rect" then some "frame-is-not-a-rect"
+    else if im.name != "image" then some "no-image-element"
+    else if attr im "href" != some img then some "href-is-not-the-image-reference"
+    else none
+  | some _, _ => some "image-elements"
+
 /-- verdict on a rendering: `none` = conforms -/
 def check (e : Expect) (s : String) : Option String :=
   match wellFormed s with
@@ -181,27 +208,8 @@ def check (e : Expect) (s : String) : Option String :=
       let paths := rest.take nl
       let tail := rest.drop nl
       if paths.length != nl then some "missing-layer" else
-      let cells := expectedCells e
-      match (paths.zip e.layerColors).findSome? (fun (p, col) =>
-          if p.name != "path" then some "layer-is-not-a-path"
-          else if attr p "fill" != some col then some "layer-fill-colour"
-          else if (attr p "stroke").isSome ∧ attr p "stroke" != some col then some "layer-stroke-colour"
-          else match attr p "d" with
-            | none => some "path-without-d"
-            | some d =>
-              match cellsOf d with
-              | none => some "unreadable-path-data"
-              | some cs => if cs == cells then none else some "sub-paths-are-not-exactly-the-dark-modules") with
+      match (paths.zip e.layerColors).findSome? (layerCheck (expectedCells e)) with
       | some err => some err
-      | none =>
-        match e.image, tail with
-        | none, [] => none
-        | none, _ => some "unexpected-elements-after-the-layers"
-        | some img, [frame, im] =>
-          if frame.name != "rect" then some "frame-is-not-a-rect"
-          else if im.name != "image" then some "no-image-element"
-          else if attr im "href" != some img then some "href-is-not-the-image-reference"
-          else none
-        | some _, _ => some "image-elements"
+      | none => tailCheck e.image tail
 
 end FastQr.Spec.SvgParse
